@@ -15,7 +15,7 @@ pub fn def() -> PropDef {
         predicate,
         nontrivial,
         functional: false,
-        rule: "all trees over &&, ||, ?: of depth <= 1 and a quarter of depth 2 (quick) / all of depth <= 2 (thorough) over the operand kinds (true, false, division by zero, overflow, missing key, undeclared variable, call of an unregistered function in global and receiver style, failing host function, call-logging host functions returning true/false), random trees to depth 4, chains of length 2-3 whose terms all compare the same operand with literals, failing and logging expressions, each also wrapped as the body of map/filter/all/exists macros; the predicate re-evaluates the tree with an independent reference interpreter of the short-circuit rules and requires the same outcome and the same ordered call log; non-trivial = at least one operand is skipped by the rules; distinct = distinct source text",
+        rule: "all trees over &&, ||, ?: of depth <= 1 and a quarter of depth 2 (quick) / all of depth <= 2 (thorough) over the operand kinds (true, false, division by zero, overflow, missing key, undeclared variable, call of an unregistered function in global and receiver style, failing host function, call-logging host functions returning true/false), random trees to depth 4, chains of length 2-3 whose terms all compare the same operand with literals, failing and logging expressions, each also wrapped as the body of map/filter/all/exists macros; every enumerated tree of depth <= 1 under one to three negations; three-argument map with guards and transforms of every operand kind (the macro-generated conditional); the predicate re-evaluates the tree with an independent reference interpreter of the short-circuit rules and requires the same outcome and the same ordered call log; non-trivial = at least one operand is skipped by the rules; distinct = distinct source text",
         post: super::no_post,
         exhaustive_note: "depth <= 1 enumeration is complete in the quick tier (depth 2 over every 4th subtree); depth <= 2 is complete in the thorough tier",
     }
@@ -219,6 +219,20 @@ pub fn generate(tier: Tier, rng: &mut Rng) -> Vec<Case> {
             trees.extend(enumerate(2, &mut counter, false));
         }
     }
+    // every enumerated tree of depth <= 1 under one, two and three negations (a negation pushed
+    // into a conjunction, a disjunction or - wrongly - a conditional changes what is evaluated)
+    {
+        let mut c2 = 5000;
+        let shallow = enumerate(1, &mut c2, false);
+        for t in &shallow {
+            if matches!(t, L::And(..) | L::Or(..) | L::Cond(..)) {
+                trees.push(L::Not(Box::new(t.clone())));
+                trees.push(L::Not(Box::new(L::Not(Box::new(t.clone())))));
+                trees.push(L::And(Box::new(L::Not(Box::new(t.clone()))), Box::new(t.clone())));
+                trees.push(L::Cond(Box::new(L::Not(Box::new(t.clone()))), Box::new(L::Not(Box::new(t.clone()))), Box::new(t.clone())));
+            }
+        }
+    }
     let n_random = match tier {
         Tier::Quick => 3000,
         Tier::Thorough => 300_000,
@@ -348,6 +362,21 @@ pub fn generate(tier: Tier, rng: &mut Rng) -> Vec<Case> {
                             EXPECT.with(|e| e.borrow_mut().insert(c.key(), want));
                             out.push(c);
                         }
+                    }
+                }
+            }
+        }
+    }
+    // the conditional a macro generates: `map(x, guard, transform)` evaluates the transform only for
+    // elements the guard accepts, and after the guard (the model decides)
+    for guard in ["false", "true", "x > 0", "lf(1)", "lt(1)", "x != 0 && lt(2)", "lf(3) || x > 0", "fail(4)", "x == 0 ? lf(5) : lt(6)"] {
+        for transform in ["10 / x", "fail(7)", "one(8)", "lt(9) && fail(10)", "nope", "m.k", "x", "[one(11), 10 / x]"] {
+            for range in ["[0, 5]", "[1, 2]", "[0]", "[]", "[5, 0, 7]"] {
+                for src in [format!("{range}.map(x, {guard}, {transform})"), format!("{range}.map(x, {guard}, {transform}).size() >= 0 || lt(12)"), format!("[1].map(y, {range}.map(x, {guard}, {transform}))")] {
+                    if let Some(mut c) = eval_case_from_src(&spec, &src) {
+                        c.tags = vec!["guarded-map", "skips"];
+                        c.src = Some(src);
+                        out.push(c);
                     }
                 }
             }
